@@ -17,6 +17,7 @@ From ASV.C19 Require Model.
 From ASV.C08 Require Model.
 From ASV.C17 Require Model.
 From ASV.C12 Require Model.
+From ASV.C02 Require Model.
 
 Definition run (l : list Z) : list Z :=
   match l with
@@ -39,6 +40,7 @@ Definition run (l : list Z) : list Z :=
     | 8 => C08.Model.run_C08 fn payload
     | 17 => C17.Model.run_C17 fn payload
     | 12 => C12.Model.run_C12 fn payload
+    | 2 => C02.Model.run_C02 fn payload
     | _ => bad_input
     end
   | _ => bad_input
